@@ -502,6 +502,10 @@ class Lowerer:
                 return Frac.of(R, R.vpoly(av))
             if op == "ATAN" and rng in ("0_halfpi", "sym_halfpi") and (u * ca_).equals(sa):
                 return Frac.of(R, R.vpoly(av))
+            # b in [0, pi) with cos b >= 0 known on this path (learned from a path decision) is b in [0, pi/2]:
+            # atan(tan b) = b there as well
+            if (op == "ATAN" and rng == "0_pi" and not ca_.den and R.known_nonneg(ca_.num) and (u * ca_).equals(sa)):
+                return Frac.of(R, R.vpoly(av))
             if op == "ASIN" and rng in ("0_halfpi", "sym_halfpi") and u.equals(sa):
                 return Frac.of(R, R.vpoly(av))
         if u.is_const() and u.const_value() == 0 and op in ("ASIN", "ATAN"):
